@@ -140,6 +140,7 @@ class C04(Prop):
                     # the termination event may arrive in the same loop iteration as the last chunks (one datagram carrying both)
                     c['seed'] = rng.getrandbits(32)
                     c['schedule'] = rng.choice(['spaced', 'batched', 'tail-batched', 'random'])
+                    c['fin'] = rng.choice([None, None, 'last-data', 'own-event'])
                 else:
                     c['read'] = rng.choice([1, 2, 3, 4, 7, 64, 1024])
                 out.append(c)
@@ -358,6 +359,12 @@ class C04(Prop):
                         await asyncio.sleep(0)
                 await breathe()
                 events = [StreamDataReceived(data=c, end_stream=False, stream_id=0) for c in chunks]
+                # where the peer's FIN falls: on the event that carries the last bytes, on an empty event of its own, or nowhere
+                fin = case.get('fin')
+                if fin == 'last-data' and events:
+                    events[-1] = StreamDataReceived(data=chunks[-1], end_stream=True, stream_id=0)
+                elif fin == 'own-event':
+                    events.append(StreamDataReceived(data=b'', end_stream=True, stream_id=0))
                 events.append(ConnectionTerminated(error_code=0, frame_type=None, reason_phrase='bye'))
                 sched = case['schedule']
                 for i, ev in enumerate(events):
@@ -381,7 +388,7 @@ class C04(Prop):
                 finally:
                     t._listener.cancel()
             items, ok = lp.run_until_complete(go_quic())
-            return {'expected': expected, 'valid_only': valid_only, 'runs': {'quic %s %s:%s' % (case['schedule'], style, ','.join(map(str, pts[:40]))): {'items': items, 'residual': '', 'terminated': ok}},
+            return {'expected': expected, 'valid_only': valid_only, 'runs': {'quic %s fin=%s %s:%s' % (case['schedule'], case.get('fin'), style, ','.join(map(str, pts[:40]))): {'items': items, 'residual': '', 'terminated': ok}},
                     'nbytes': len(data)}
         # tcp
         from rsocket.transports.tcp import TransportTCP
